@@ -14,6 +14,13 @@ CLAIMED = {
          "Every point of the full cross product of outstanding-ID sets x InResponseTo values (Response, 1-2 confirmations) x AllowIDPInitiated x validator x entry point x signing layout, "
          "and the artifact path end-to-end, is built as a harness-signed message, pushed through ParseXMLResponse/ParseResponse and compared with a reference model; nothing is sampled.",
          "DESIGN.md §3 C04", TRUST),
+ "C02": ("lattice", "bounded-exhaustive enumeration (full 4^5 boundary lattice x layouts x tolerance settings) against a reference model, clock pinned",
+         "The full product of {far inside, boundary-1ms, boundary+1ms, far outside} for the five instants, crossed with confirmation layouts, assertion position, tolerance settings (changed at run time) and signing layouts, "
+         "plus lexical time forms and the artifact path, is driven through ParseXMLResponse with the library clock pinned and compared with the statement's inequalities.",
+         "DESIGN.md §3 C02", TRUST),
+ "C03": ("lattice", "deviation-bounded exhaustive enumeration (k<=2 quick, k<=3 thorough) x full configuration product against a three-valued reference model",
+         "Every point with at most k fields (issuers, recipients, destination, audience sequences, status) deviating from the valid message, crossed with the full product of signing layout, EntityID set/unset, audience validator, received-at URL and entry point, is signed by the harness IdP and pushed through the public API; verdicts are compared with a reference model written from the statement.",
+         "DESIGN.md §3 C03", TRUST),
 }
 
 ALL = ["C%02d" % i for i in range(1, 21)]
